@@ -88,7 +88,7 @@ class GenCheck:
                     if n.id == self.random_var:
                         out.uses_random = True
                     continue
-                if n.id not in scope:
+                if n.id not in scope and n.id not in T.local_names:
                     out.unresolved_names.append(n.id)
         out.scope_has_getrandbits = self.getrandbits_name in scope
         # reference semantics
